@@ -609,7 +609,7 @@ func runC05(c *Ctx) error {
 		c05scopeCase(c, d)
 	}
 	nex := 0
-	c05exhaustive(c.Pick(3, 4), c.Pick(9, 3), func(p *c05Prog) {
+	c05exhaustive(c.Pick(3, 4), c.Pick(9, 2), func(p *c05Prog) {
 		if !c.Enough() {
 			c05programCase(c, p)
 			nex++
@@ -617,10 +617,10 @@ func runC05(c *Ctx) error {
 	})
 	c.Extra["exhaustive_programs"] = nex
 	g := &c05gen{c: c}
-	for i := 0; i < c.Pick(450, 6000) && !c.Enough(); i++ {
+	for i := 0; i < c.Pick(450, 12000) && !c.Enough(); i++ {
 		c05programCase(c, g.program())
 	}
-	for i := 0; i < c.Pick(200, 3000) && !c.Enough(); i++ {
+	for i := 0; i < c.Pick(200, 5000) && !c.Enough(); i++ {
 		c05scopeCase(c, c05scopeRandom(c))
 	}
 	c.Exhaustive = false
